@@ -1,7 +1,7 @@
 (* C05 — Filter logic, existence tests and @/$ scoping.  Statements only. *)
 From Coq Require Import List NArith ZArith Bool.
 From JP Require Import Base Ast Eval ValueModel Spec Known WellFormed Regex Entry DataFacts SelFacts
-  ValueFacts Refine Order RegexFacts SpecSteps.
+  ValueFacts Refine Order RegexFacts SpecSteps Build Purity GenParse GenBuild FragParse FilterParse FilterBuild StringLevel.
 Import ListNotations.
 
 Notation holds := (r_holds rx_spec_full rx_spec_sub jeqb false).
@@ -44,6 +44,32 @@ Theorem C05_select_children_in_order : forall f root d,
   = flat_map (fun n => List.filter (fun c => holds root f (snd c)) (children n)) (nodes_of d).
 Proof. exact select_children_lemma. Qed.
 Print Assumptions C05_select_children_in_order.
+
+(* the same at STRING level, through the whole pipeline (generated grammar, parser.rs, Filter::process):
+   for every logical expression e of the tower of FilterParse.v, nested to any depth n, query_with_path on the
+   text `$[?e]` returns exactly the children of the root for which the RFC truth value of e holds, in their
+   original order (list equality) *)
+Theorem C05_string_level_children_in_order : forall n (e : list (list (xatom (SelT n)))) (d : json),
+  eok (SelT n) (sokT n) e -> egood (SelT n) (sgoodT n) e -> wf_json d = true ->
+  let f := or_ast (SelT n) (sastT n) e in
+  exists ps,
+    api_with_path (36%N :: 91%N :: filter_text (SelT n) (stextT n) e ++ [93%N]) d
+      = Some (map (fun p => (inner p, path p)) ps)
+    /\ map node_of ps = List.filter (fun c => holds d f (snd c)) (children ([], d)).
+Proof. exact filter_children_in_order. Qed.
+Print Assumptions C05_string_level_children_in_order.
+
+(* $[?@.a==1&&!(@.b||$.c)] on [{"a":1},{"a":1,"b":null},{"a":2}] *)
+Example C05_string_level_example :
+  let e : list (list (xatom (SelT 0))) :=
+    [[XCmp _ OpEq (XCSq false [SQShort [97]%N]) (XCLit (XInt 1%Z));
+      XParen _ true [[XTest _ false false [GShort _ [98]%N]]; [XTest _ false true [GShort _ [99]%N]]]]] in
+  let a := [97]%N in let b := [98]%N in
+  let d := JArr [JObj [(a, JNum (NInt 1))]; JObj [(a, JNum (NInt 1)); (b, JNull)]; JObj [(a, JNum (NInt 2))]] in
+  filter_text (SelT 0) (stextT 0) e = [63;64;46;97;61;61;49;38;38;33;40;64;46;98;124;124;36;46;99;41]%N
+  /\ option_map (map fst) (api_with_path (36%N :: 91%N :: filter_text (SelT 0) (stextT 0) e ++ [93%N]) d)
+     = Some [JObj [(a, JNum (NInt 1))]].
+Proof. vm_compute. split; reflexivity. Qed.
 
 (* Boolean algebra of the RFC semantics: ||, && are orb/andb over the operands in order,
    ! and parentheses are negation and identity (so && binds tighter than || exactly when the
